@@ -620,8 +620,8 @@ def txt_roundtrip(ctx, kind, shape, dim, two_d, sep, col_sep):
     ctx.check_true('import.count', len(got) == len(want), '%d points imported, %d exported' % (len(got), len(want)))
     ctx.check_eq_grid('import.points', got, want)
     back = _rebuild(ctx, d, got)
-    ctx.check_eq_vec('rebuilt.evaluate_single', back.evaluate_single(prm[0] if kind == 'curve' else list(prm)),
-                     _spec_point(ctx, d, prm))
+    point = _spec_point(ctx, d, prm)          # first: records the positivity lemma of the weight function
+    ctx.check_eq_vec('rebuilt.evaluate_single', back.evaluate_single(prm[0] if kind == 'curve' else list(prm)), point)
 
 
 def _csv_instances(tier):
@@ -675,5 +675,5 @@ def csv_roundtrip(ctx, kind, shape, dim, point_type):
     ctx.check_eq_grid('import.points', got, want)
     if point_type == 'ctrlpts':
         back = _rebuild(ctx, d, got)
-        ctx.check_eq_vec('rebuilt.evaluate_single', back.evaluate_single(prm[0] if kind == 'curve' else list(prm)),
-                         _spec_point(ctx, d, prm))
+        point = _spec_point(ctx, d, prm)
+        ctx.check_eq_vec('rebuilt.evaluate_single', back.evaluate_single(prm[0] if kind == 'curve' else list(prm)), point)
